@@ -120,15 +120,47 @@ Theorem C10_climb_bounded_with_migrations : forall self txs d share0,
                  share1 <= N.max share0 100000000000000000.
 Proof. exact d_climb_bounded. Qed.
 
+(* `anchored`: the recorded cw2 version is not below 3.1.0 (as a semver and as a string), or
+   the contract runs the metadata-onchain / nt code under a name the updatable migrate
+   refuses.  Every fresh deployment is anchored, and stays so whatever is migrated
+   (metadata-onchain records 3.0.0 after its own migrate - it still never reaches a migrate
+   with the 3.1.0 step). *)
 Theorem C10_cadence_with_migrations : forall self txs d,
-  ver_ltb (d_ver d) (3, 1, 0) = false ->
+  (ver_ltb (d_ver d) (3, 1, 0) = false /\ str_ltb (ver_str (d_ver d)) (ver_str (3, 1, 0)) = false) \/
+  ((d_ct d = Onchain \/ d_ct d = NT) /\ compatible_name (d_name d) = false) ->
   gaps_ok 86400000000000 (royalty_updated_at (d_st d)) (d_accepted_changes self d txs).
 Proof. exact d_cadence. Qed.
 
 Theorem C10_cadence_any_two_with_migrations : forall self txs d,
-  ver_ltb (d_ver d) (3, 1, 0) = false ->
+  (ver_ltb (d_ver d) (3, 1, 0) = false /\ str_ltb (ver_str (d_ver d)) (ver_str (3, 1, 0)) = false) \/
+  ((d_ct d = Onchain \/ d_ct d = NT) /\ compatible_name (d_name d) = false) ->
   ForallOrdPairs (fun t1 t2 => t1 + 86400000000000 <= t2) (d_accepted_changes self d txs).
 Proof. exact d_cadence_any_two. Qed.
+
+(* per variant, what ONE migration does to the cadence anchor: it is left alone, unless
+   - the result runs the sg721-updatable code (migrate to it, or its own migrate) and the
+     version recorded before was (semver-)below 3.1.0, or
+   - it is Sg721Contract::migrate of sg721-base and the version recorded before was
+     string-below "3.1.0";
+   then it becomes now - 24 h.  The metadata-onchain and sg721-nt migrates have no such step:
+   they leave the whole state alone, whatever is recorded (sg721-nt refuses every migrate). *)
+Theorem C10_migration_anchor_per_variant : forall self e a d d' ms,
+  a = AMigrate \/ a = AMigrateSelf ->
+  dstep self e a d = Ok (d', ms) ->
+  royalty_updated_at (d_st d') = royalty_updated_at (d_st d) \/
+  (86400000000000 <= now e /\ royalty_updated_at (d_st d') = now e - 86400000000000 /\
+   ((d_ct d' = Updatable /\ ver_ltb (d_ver d) (3, 1, 0) = true) \/
+    (d_ct d = Base /\ d_ct d' = Base /\ str_ltb (ver_str (d_ver d)) (ver_str (3, 1, 0)) = true))).
+Proof. exact d_migration_anchor. Qed.
+
+Theorem C10_onchain_nt_own_migrate_keeps_state : forall self e d d' ms,
+  d_ct d = Onchain \/ d_ct d = NT ->
+  dstep self e AMigrateSelf d = Ok (d', ms) -> d_st d' = d_st d /\ d_ct d' = d_ct d.
+Proof. exact d_onchain_nt_self_migrate_keeps_state. Qed.
+
+Theorem C10_anchored_is_invariant : forall self e a d d' ms,
+  anchored d -> dstep self e a d = Ok (d', ms) -> anchored d'.
+Proof. exact anchored_step. Qed.
 
 Theorem C10_cadence_from_creation_with_migrations : forall self ct admin time0 by_contract funds0 minter c s txs,
   instantiate ct time0 by_contract funds0 minter c = Ok s ->
@@ -160,8 +192,9 @@ Theorem C10_raise_refused_with_migrations : forall self e m new old d,
   dstep self e (ACall (OUpdateInfo m)) d = Err.
 Proof. exact d_raise_refused. Qed.
 
-Theorem C10_migration_keeps_royalty_entry : forall self e d d' ms,
-  dstep self e AMigrate d = Ok (d', ms) -> ci_royalty (info (d_st d')) = ci_royalty (info (d_st d)).
+Theorem C10_migration_keeps_royalty_entry : forall self e a d d' ms,
+  a = AMigrate \/ a = AMigrateSelf ->
+  dstep self e a d = Ok (d', ms) -> ci_royalty (info (d_st d')) = ci_royalty (info (d_st d)).
 Proof. exact migrate_keeps_royalty. Qed.
 
 (* ---- the payout helper *)
@@ -266,6 +299,23 @@ Example C10_ex_zero_entry :
   is_ok (step NT 11 e (c10_ex_upd 1000000000000000000) (boot None)) = true.
 Proof. vm_compute. repeat split; reflexivity. Qed.
 
+(* metadata-onchain: update, migrate (records 3.0.0), migrate again, update within the hour:
+   refused - its migrate never re-opens the window; Sg721Contract::migrate of sg721-base from a
+   3.2.1 record is refused outright (string order: "3.2.1" > "3.16.0") *)
+Example C10_ex_onchain_repeat_migrate :
+  let day := 86400000000000 in
+  let up share := ACall (c10_ex_upd share) in
+  let d0 := mkDep Onchain 12 (NOther 1) (3, 0, 9) c10_ex_s0 in
+  let txs := [(mkEnv (c10_ex_t0 + day) 12 [], up 70000000000000000);
+              (mkEnv (c10_ex_t0 + day + 1) 12 [], AMigrateSelf);
+              (mkEnv (c10_ex_t0 + day + 2) 12 [], AMigrateSelf);
+              (mkEnv (c10_ex_t0 + day + 3) 12 [], up 90000000000000000)] in
+  d_ver (drun 11 d0 txs) = (3, 0, 0) /\
+  d_accepted_changes 11 d0 txs = [c10_ex_t0 + day] /\
+  dstep 11 (mkEnv (c10_ex_t0 + day) 12 []) AMigrateSelf (mkDep Base 12 NBase (3, 2, 1) c10_ex_s0) = Err /\
+  dstep 11 (mkEnv (c10_ex_t0 + day) 12 []) AMigrateSelf (mkDep NT 12 (NOther 2) (3, 0, 9) c10_ex_s0) = Err.
+Proof. vm_compute. repeat split; reflexivity. Qed.
+
 Print Assumptions C10_share_le_100_at_creation.
 Print Assumptions C10_share_le_100_after_any_call.
 Print Assumptions C10_share_le_100_always.
@@ -296,3 +346,7 @@ Print Assumptions C10_raise_refused.
 Print Assumptions C10_zero_share_entry_is_an_entry.
 Print Assumptions C10_raise_refused_with_migrations.
 Print Assumptions C10_migration_keeps_royalty_entry.
+
+Print Assumptions C10_migration_anchor_per_variant.
+Print Assumptions C10_onchain_nt_own_migrate_keeps_state.
+Print Assumptions C10_anchored_is_invariant.
